@@ -16,19 +16,26 @@ def random_board(rng, L, W, fd=False, max_reward=3, p_loose=0.3):
     return mv, rw, ls
 
 
-def games_of_board(mv, rw, ls, pt=0.1, pr=0.1, pl=0.1):
+def games_of_board(mv, rw, ls, pt=0.1, pr=0.1, pl=0.1, bare_name=False):
     """dict {'game_a','game_b','game_c'} as written by write_robots and read back by the
-    repository's reader (scratch directory, removed afterwards)."""
+    repository's reader (scratch directory, removed afterwards).  bare_name: the file is named without any
+    directory part and written into the current directory."""
     rg = repo("roberta_generator")
     cr = repo("conditionalrewards")
     d = tempfile.mkdtemp(prefix="crv_")
+    old = os.getcwd()
     try:
         p = os.path.join(d, "b.py")
         with quiet():
-            rg.write_robots(p, len(mv), len(mv[0]), mv, rw, ls, pt, pr, pl)
+            if bare_name:
+                os.chdir(d)
+                rg.write_robots("b.py", len(mv), len(mv[0]), mv, rw, ls, pt, pr, pl)
+            else:
+                rg.write_robots(p, len(mv), len(mv[0]), mv, rw, ls, pt, pr, pl)
             games = cr.read_dict_from_file(p)
         text = open(p).read()
     finally:
+        os.chdir(old)
         shutil.rmtree(d, ignore_errors=True)
     return games, text
 
@@ -128,3 +135,69 @@ def run_generator(argv=None, call=None, force_random=None, pre_files=None):
         shutil.rmtree(d, ignore_errors=True)
     out["log"] = log
     return out
+
+
+def run_generator_cli(argv, pyflags=(), base_dir=None, pre_files=None, env_extra=None):
+    """`python [pyflags] roberta_generator.py argv` as a subprocess in a scratch cwd (under base_dir) holding an empty
+    inputs/ directory (plus pre_files).  Returns dict(rc, stderr, files {relative name: text})."""
+    import subprocess
+    import sys
+    from crlib import REPO
+    d = tempfile.mkdtemp(prefix="crv.cli_", dir=base_dir)
+    try:
+        os.mkdir(os.path.join(d, "inputs"))
+        for name, content in (pre_files or {}).items():
+            with open(os.path.join(d, name), "w") as f:
+                f.write(content)
+        env = {k: v for k, v in os.environ.items() if k != "PYTHONOPTIMIZE"}
+        env.update(PYTHONPATH=REPO, PYTHONDONTWRITEBYTECODE="1")
+        env.update(env_extra or {})
+        try:
+            p = subprocess.run([sys.executable, *pyflags, os.path.join(REPO, "roberta_generator.py")] + [str(a) for a in argv],
+                               cwd=d, capture_output=True, text=True, timeout=300, env=env)
+            rc, err = p.returncode, p.stderr[-300:]
+        except subprocess.TimeoutExpired:
+            rc, err = "timeout", ""
+        files = {}
+        for root, _, fs in os.walk(d):
+            for f in fs:
+                pth = os.path.join(root, f)
+                try:
+                    files[os.path.relpath(pth, d)] = open(pth).read()
+                except Exception as e:  # noqa
+                    files[os.path.relpath(pth, d)] = f"<unreadable: {type(e).__name__}>"
+        return {"rc": rc, "stderr": err, "files": files}
+    finally:
+        shutil.rmtree(d, ignore_errors=True)
+
+
+def generator_environment(ctx, clause, param_sets):
+    """What the generator writes must not depend on the interpreter's optimisation level (`python -O` strips asserts),
+    on the file system the working directory lives on (a temp file moved into place fails across devices), or on
+    what an earlier run left under the same name (a longer file of the same name must be replaced, not overwritten
+    in place).  Reference = the in-process run in a fresh directory."""
+    other_fs = None
+    try:
+        if os.path.isdir("/dev/shm") and os.access("/dev/shm", os.W_OK) and os.stat("/dev/shm").st_dev != os.stat(tempfile.gettempdir()).st_dev:
+            other_fs = "/dev/shm"
+    except OSError:
+        pass
+    for argv in param_sets:
+        ref = run_generator(argv)
+        if ref["outcome"] != "ok" or len(ref["files"]) != 1:
+            continue                      # judged elsewhere
+        (name, text), = ref["files"].items()
+        inp = {"argv": list(argv)}
+        runs = [("python -O", dict(pyflags=("-O",))),
+                ("same-named longer file left by an earlier run", dict(pre_files={name: text + "\n# " + "x" * 4000 + "\n{'stale': 1}\n" * 3}))]
+        if other_fs:
+            runs.append((f"working directory on another file system ({other_fs}) than the temp directory", dict(base_dir=other_fs)))
+        for label, kw in runs:
+            r = run_generator_cli(argv, **kw)
+            ctx.case(dict(inp, environment=label), True)
+            if r["rc"] != 0 or r["files"] != {name: text}:
+                ctx.violation(clause, dict(inp, environment=label),
+                              {"rc": r["rc"], "stderr": r["stderr"], "files": sorted(r["files"]),
+                               "same_content": r["files"].get(name) == text,
+                               "length": [len(r["files"].get(name, "")), len(text)]})
+                return
